@@ -323,8 +323,15 @@ func (g *gen) field(fieldName string, fieldType types.Type) (string, error) {
 		case types.Uint64:
 			return fmt.Sprintf("%s", fieldName), nil
 		case types.Float32:
+			if _, named := fieldType.(*types.Basic); !named {
+				// a named float type has to be converted before math.Float32bits accepts it
+				fieldName = "float32(" + fieldName + ")"
+			}
 			return fmt.Sprintf("uint64(%s.Float32bits(%s))", g.mathPkg(), fieldName), nil
 		case types.Float64:
+			if _, named := fieldType.(*types.Basic); !named {
+				fieldName = "float64(" + fieldName + ")"
+			}
 			return fmt.Sprintf("%s.Float64bits(%s)", g.mathPkg(), fieldName), nil
 		case types.Complex64:
 			return fmt.Sprintf("(31 * ((31 * 17) + uint64(%s.Float32bits(real(%s))))) + uint64(%s.Float32bits(imag(%s)))", g.mathPkg(), fieldName, g.mathPkg(), fieldName), nil
